@@ -167,7 +167,7 @@ class DelaySweepFamily(Family):
     unlocked code is thereby stretched to its maximum, deterministically."""
 
     chunk = 1
-    SLICES = 4
+    SLICES = 12
     OPTS = {"exec": "threads", "protos": ["h1"], "min_callers": 3, "max_callers": 4,
             "max_ops": 2, "p_pool_timeout": 0.0, "single_origin": True,
             "max_connections": [1, 1, 1, 2], "max_keepalive": [None, None, 0, 1],
